@@ -222,7 +222,8 @@ package cdi
 //@                        forall(n, string, has(devices, n), exists(k, 0 <= k && k < len(s.Devices), old(s.Devices[k].Name) == n)))
 //@   loop 1 invariant forall(k, 0 <= k && k < #i, old(DeviceOK(val(&s.Devices[k])))) && old(DistinctNames(s.Spec, #i))
 //@   loop 1 invariant forall(n, string, has(devices, n), devices[n] != nil && fresh(devices[n]) &&
-//@                        devices[n].Device != nil && devices[n].spec == s && devices[n].Name == n)
+//@                        devices[n].Device != nil && devices[n].spec == s && devices[n].Name == n &&
+//@                        own(devices[n].Device) > own(&d) && own(devices[n]) > own(&d))
 //@   loop 1 invariant len(devices) == #i && forall(k, 0 <= k && k < #i, has(devices, old(s.Devices[k].Name)))
 //@   loop 1 invariant forall(n, string, has(devices, n), exists(k, 0 <= k && k < #i, old(s.Devices[k].Name) == n))
 
@@ -414,6 +415,22 @@ package cdi
 //@ func (c *Cache) refresh() (err error)
 //@   requires c != nil
 //@   requires excl
+//@   modifies c.specs, c.devices, c.errors, allelems([]*Spec), allelems([]error)
+//@   ghostwrites maxP, cnt, first, scanMark
+//@   ghost at before call of scanSpecDirs: maxP = constmap(0 - 1)
+//@   ghost at before call of scanSpecDirs: cnt = constmap(0)
+//@   ghost at before call of scanSpecDirs: scanMark = allocNow()
+//@   ensures[C01] forall(q, string, true, has(c.devices, q) == (cnt[q] == 1))
+//@   ensures[C01] forall(q, string, cnt[q] == 1, c.devices[q] == first[q] && DevObjWF(c.devices[q]) &&
+//@                       c.devices[q].spec.priority == maxP[q])
+//@   ensures[C13] ErrInv(c.errors)
+//@   ensures[C13] fresh(c.errors) && fresh(c.devices) && fresh(c.specs)
+//@   ensures[C13] (err == nil) == forall(k, string, true, !has(c.errors, k))
+//@   loop 1 invariant ScanInvRest(devices, conflicts, #seen)
+//@   loop 2 invariant ErrInv(specErrors) && forall(i, 0 <= i && i < len(errs), errs[i] != nil)
+//@   loop 2 invariant (len(errs) == 0) == forall(k, string, true, !has(#seen, k))
+//@   loop 2 invariant forall(k, string, has(#seen, k), has(specErrors, k))
+//@   loop 2 invariant base(errs) == 0 || fresh(errs)
 //@ func (c *Cache) highestPrioritySpecDir() (dir string, prio int)
 //@   requires c != nil
 //@   requires excl
@@ -471,6 +488,12 @@ package cdi
 //@               has(devices, q) == (cnt[q] >= 1) && has(conflicts, q) == (cnt[q] >= 2) &&
 //@               implies(cnt[q] >= 1, devices[q] == first[q] && DevObjWF(cast(first[q], *Device)) &&
 //@                       cast(first[q], *Device).spec.priority == maxP[q]))
+// while the conflicting names are removed: what is left of the scan invariant
+//@ pred ScanInvRest(devices map[string]*Device, conflicts map[string]struct{}, seen map[string]bool) = devices != nil && conflicts != nil &&
+//@        forall(q, string, true, cnt[q] >= 0 && has(conflicts, q) == (cnt[q] >= 2) &&
+//@               has(devices, q) == (cnt[q] >= 1 && !(cnt[q] >= 2 && has(seen, q))) &&
+//@               implies(cnt[q] >= 1, first[q] != nil && implies(has(devices, q), devices[q] == first[q] && DevObjWF(cast(first[q], *Device)) &&
+//@                       cast(first[q], *Device).spec.priority == maxP[q])))
 //@ pred ErrInv(m map[string][]error) = m != nil && forall(k, string, has(m, k), len(m[k]) >= 1 && own(m[k]) <= allocNow() &&
 //@        forall(i, 0 <= i && i < len(m[k]), m[k][i] != nil))
 
